@@ -18,7 +18,7 @@ CHECKS = {
     "C08": ("gensim", "exploration", "seeded generator histories (scheduler picks task and execution mode) vs closed-box / facet reference model after every call",
             "Sampled, not exhaustive: counts, shapes, closed-box and facet membership are checked at construction and after every single get_batch of seeded histories over all collocation generator kinds, dims, sampling methods and execution modes (eager/jit/scan/round trip).",
             "trusts numpy comparisons with bounds cast to the array dtype; 2-D grid only for square n (others are rejected by the constructor)"),
-    "C09": ("gensim", "exploration", "seeded generator histories vs multiset epoch reference model, plus exhaustive small scope (all n<=8, b<=n, 7 stream kinds, 3 epochs)",
+    "C09": ("gensim", "exploration", "seeded generator histories vs multiset epoch reference model, plus exhaustive small scope (all n<=8 quick / n<=12 thorough, b<=n, 7 stream kinds, 3 epochs)",
             "Every (n,b) with b<=n<=8 for every stream kind is enumerated over >=3 epochs (exhaustive sub-space, reported separately); beyond that, seeded histories with larger n, several interleaved generators and all execution modes are sampled. Oracle: permutation only, no double serve when b|n, full cover otherwise, reshuffle exactly when covered.",
             "reshuffles are observed from store order / cursor==0 / key change (ambiguous events resolved angelically); RAR generators excluded (C16/C17)"),
     "C14": ("gensim", "exploration", "seeded space-time generator histories vs explicit double-loop product model + per-factor epoch models",
